@@ -8,6 +8,7 @@ import (
 	"encoding/json"
 	"fmt"
 	"io"
+	"math/big"
 	"math/rand"
 	"os"
 	"os/exec"
@@ -499,9 +500,50 @@ func retain(b []byte) {
 	retainPos = (retainPos + 1) % retainSlots
 }
 
+// the same for *big.Int results (decoded coordinates, signature halves): the library must not go on writing
+// to an integer it has handed out
+type retainedBig struct {
+	v    *big.Int
+	snap string
+	op   string
+}
+
+var (
+	retainBigRing []retainedBig
+	retainBigPos  int
+)
+
+func retainBig(vs ...*big.Int) {
+	if retainOff {
+		return
+	}
+	for _, v := range vs {
+		if v == nil {
+			continue
+		}
+		e := retainedBig{v: v, snap: v.Text(16), op: retainOp}
+		if len(retainBigRing) < 64 {
+			retainBigRing = append(retainBigRing, e)
+			continue
+		}
+		retainBigRing[retainBigPos] = e
+		retainBigPos = (retainBigPos + 1) % 64
+	}
+}
+
 // checkRetained reports (once) every remembered slice whose contents changed.
 func checkRetained() []string {
 	var out []string
+	for i := range retainBigRing {
+		e := &retainBigRing[i]
+		if e.v == nil {
+			continue
+		}
+		if now := e.v.Text(16); now != e.snap {
+			out = append(out, fmt.Sprintf("an integer returned by an earlier operation [%s] changed during a later one: was %s, now %s", truncate(e.op, 160), truncate(e.snap, 80), truncate(now, 80)))
+			e.v = nil
+		}
+	}
 	for i := range retainRing {
 		e := &retainRing[i]
 		if e.b == nil {
